@@ -110,6 +110,11 @@ def define_pipeline(spec, shard_index=0, num_shards=1, with_source=True):
   result = source.chain(stage) if source is not None else stage
   if agg_cls is not None and not spec.get('fused', True):
     result = result.chain(T.new(name='agg').aggregate(fn=agg_cls(), output_keys='agg'))
+  agg2_cls = {'sum': SumCount, 'collect': Collect}.get(spec.get('agg2'))
+  if agg2_cls is not None:
+    # A second aggregating stage downstream of the first one.
+    result = result.chain(
+        T.new(name='post').apply(fn=op_square).aggregate(fn=agg2_cls(), output_keys='agg2'))
   return result
 
 
@@ -132,15 +137,21 @@ def reference(spec):
         cur = list(cur)
     if keep:
       outs.append(cur)
+  def _agg(kind, batches):
+    if kind == 'sum':
+      a = SumCount()
+      st = a.create_state()
+      for o in batches:
+        st = a.update_state(st, o)
+      return a.get_result(st)
+    return sorted(x for o in batches for x in o)
+
   agg = None
-  if spec.get('agg') == 'sum':
-    a = SumCount()
-    st = a.create_state()
-    for o in outs:
-      st = a.update_state(st, o)
-    agg = {'agg': a.get_result(st)}
-  elif spec.get('agg') == 'collect':
-    agg = {'agg': sorted(x for o in outs for x in o)}
+  if spec.get('agg') in ('sum', 'collect'):
+    agg = {'agg': _agg(spec['agg'], outs)}
+  if spec.get('agg2') in ('sum', 'collect'):
+    outs = [op_square(o) for o in outs]
+    agg = dict(agg or {}, agg2=_agg(spec['agg2'], outs))
   return outs, agg
 
 
